@@ -276,7 +276,34 @@ def classify_restart_diff(comp, a, b, case):
     return "none"
 
 
-HEADER = "From RN Require Import SM.Replay RaftLog.SnapFile.\nOpen Scope N_scope.\nOpen Scope string_scope.\n"
+HEADER = ("From RN Require Import SM.Replay RaftLog.SnapFile SM.SnapCodec SM.Concrete.\n"
+          "Open Scope N_scope.\nOpen Scope string_scope.\n")
+
+
+def coq_bytes(b):
+    return "[" + ";".join(str(x) for x in b) + "]%N"
+
+
+def coq_opt_bytes(s):
+    return "None" if s is None else "(Some %s)" % coq_bytes(list(s.encode("utf-8")))
+
+
+def coq_value_of_dump(get, hist_newest_first):
+    """a cvalue from what the real ConfigActor answers (GET + history page): only the fields that
+    ConfigValueDO carries matter for enc_value"""
+    hs = []
+    for h in reversed(hist_newest_first):
+        hs.append("mkHist %d %s %d %s" % (h["id"], coq_bytes(list(h["content"].encode("utf-8"))), h["modified_time"],
+                                           coq_opt_bytes(h.get("op_user"))))
+    return "(mkVal %s [] false [%s] %s %s 0)" % (
+        coq_bytes(list(get["content"].encode("utf-8"))), ";".join(hs), coq_opt_bytes(get.get("config_type")),
+        coq_opt_bytes(get.get("desc")))
+
+
+def model_opt_bytes(v):
+    if v == "None":
+        return None
+    return bytes(v[1]).decode("utf-8", "replace")
 
 
 def run(chk, replay=None):
@@ -369,7 +396,7 @@ def run(chk, replay=None):
     r_impl = lib.harness_run("dispatch", route_cases, env=env)
     try:
         r_model = lib.coq_eval_sharded("c01rt", HEADER, ["route load_arms %s %s" % (
-            lib.coq_string(c["tree"]), lib.coq_string(bytes(c["key"]).decode("utf-8", "replace"))) for c in route_cases], per=50)
+            coq_bytes(list(c["tree"].encode("utf-8"))), coq_bytes(c["key"])) for c in route_cases], per=50)
     except RuntimeError as ex:
         chk.violation("model evaluation failed: %s" % str(ex)[:300], {"broken": "model evaluation", "log": str(ex)[-3000:]}, False)
         r_model = None
@@ -391,6 +418,90 @@ def run(chk, replay=None):
             chk.violation("model != implementation (load_snapshot routing of tree %r key %r): model %s impl %s" % (
                 c["tree"], bytes(c["key"])[:12], want, got),
                 {"suite": "dispatch/route", "case": c, "model": want, "impl": r, "correspondence": "Gen.SnapshotTables.load_arms"}, False)
+
+    # ---- B2. record codecs: real bytes vs SM/SnapCodec.v -------------------------------------------------
+    # (i) LogSnapshotItem frames as the real SnapshotWriter wrote them (snapfile suite) vs frame (enc_item r), and
+    #     dec_item_frame on the real frame; (ii) ConfigValueDO bytes of the real ConfigActor snapshot records vs
+    #     enc_value of the value the real actor serves, and dec_value on the real bytes; (iii) id_to_bin vs be8
+    exprs, meta = [], []
+    for c, r in list(zip(sf_cases, sf_impl))[:60]:
+        if r.get("r") != "ok":
+            continue
+        for rec, fr in list(zip(c["recs"], r["frames"]["records"]))[:3]:
+            if len(fr) > 700:
+                continue
+            tree, key, val = rec
+            rc = "(mkRec %s %s %s)" % (coq_bytes(list(tree.encode("utf-8"))), coq_bytes(key), coq_bytes(val))
+            exprs.append("(frame (enc_item %s), dec_item_frame %s)" % (rc, coq_bytes(fr)))
+            meta.append(("item", rec, fr))
+    samples_d = lib.harness_run("dispatch", [{"k": "samples"}], env=env)[0]["samples"]
+    gd = c07.Gen(rng, samples_d)
+    dcases = [{"reqs": [q for q in gd.sequence(rng.choice([8, 20, 40]))], "batches": [], "via": "direct"} for _ in range(24 if tier == "quick" else 200)]
+    douts = lib.harness_run_parallel("dispatch", dcases, env=env)
+    seen_vals = set()
+    for dc, do in zip(dcases, douts):
+        if do.get("r") != "ok":
+            continue
+        dump = do["leader"]["dump"]
+        views = {x["key"]: x for x in dump["config"]["keys"]}
+        for rec in dump["snapshot"]:
+            if rec["tree"] == "T_CONFIG":
+                key = bytes.fromhex(rec["key"]).decode("utf-8", "replace")
+                v = views.get(key)
+                if not v or not v.get("get") or rec["value"] in seen_vals or len(rec["value"]) > 1200:
+                    continue
+                seen_vals.add(rec["value"])
+                real = list(bytes.fromhex(rec["value"]))
+                exprs.append("(enc_value %s, dec_value %s)" % (coq_value_of_dump(v["get"], v["history"]["list"]), coq_bytes(real)))
+                meta.append(("value", v, real))
+            elif rec["tree"] == "T_SEQUENCE" and len(seen_vals) < 400:
+                real = list(bytes.fromhex(rec["value"]))
+                n = int.from_bytes(bytes(real), "big")
+                if ("seq", n) in seen_vals:
+                    continue
+                seen_vals.add(("seq", n))
+                exprs.append("(be8 %d, of_be8 %s)" % (n, coq_bytes(real)))
+                meta.append(("be8", n, real))
+    try:
+        cvals = lib.coq_eval_sharded("c01cd", HEADER, exprs, per=12) if exprs else []
+    except RuntimeError as ex:
+        chk.violation("model evaluation failed: %s" % str(ex)[:300], {"broken": "model evaluation", "log": str(ex)[-3000:]}, False)
+        cvals = []
+    codec_counts = {"item": 0, "value": 0, "be8": 0}
+    for (kind, a, real), mv in zip(meta, cvals):
+        n_eval += 1
+        codec_counts[kind] += 1
+        enc, dec = mv
+        bad = None
+        if list(enc) != list(real):
+            bad = "encoder bytes differ: model %s real %s" % (list(enc)[:24], list(real)[:24])
+        elif kind == "item":
+            want = [list(a[0].encode("utf-8")), list(a[1]), list(a[2])]
+            got = None if dec == "None" else [list(dec[1]["rtree"]), list(dec[1]["rkey"]), list(dec[1]["rval"])]
+            if got != want:
+                bad = "dec_item_frame(real frame) = %s, written record %s" % (got, want)
+        elif kind == "be8":
+            if dec == "None" or dec[1] != a:
+                bad = "of_be8(real bytes) = %s, value %s" % (dec, a)
+        else:
+            if not (isinstance(dec, tuple) and dec[0] == "Ok"):
+                bad = "dec_value(real bytes) = %s" % str(dec)[:60]
+            else:
+                d = dec[1]
+                got = (bytes(d["do_content"]).decode("utf-8", "replace"), model_opt_bytes(d["do_type"]), model_opt_bytes(d["do_desc"]),
+                       [(h["h_id"], bytes(h["h_content"]).decode("utf-8", "replace"), h["h_time"], model_opt_bytes(h["h_user"])) for h in d["do_hist"]])
+                g = a["get"]
+                want = (g["content"], g.get("config_type"), g.get("desc"),
+                        [(h["id"], h["content"], h["modified_time"], h.get("op_user")) for h in reversed(a["history"]["list"])])
+                if got != want:
+                    bad = "dec_value(real bytes) != served value: %s" % lib.diff_first(list(got), list(want))
+        if bad:
+            mism += 1
+            chk.violation("model != implementation (%s codec): %s" % (kind, bad),
+                          {"suite": "snapfile/dispatch", "kind": kind, "case": a if kind != "value" else a.get("key"), "real": real,
+                           "correspondence": "SM.SnapCodec"}, False)
+        else:
+            nontrivial.add(("codec", kind, len(real)))
 
     # ---- C. restart oracle on a real single-node Raft ------------------------------------------------------
     samples = lib.harness_run("dispatch", [{"k": "samples"}], env=env)[0]["samples"]
@@ -479,6 +590,7 @@ def run(chk, replay=None):
     chk.cov["input_distribution"] = {"snapfile_cases": len(sf_cases), "route_cases": len(route_cases), "restart_histories": len(rcases),
                                      "phases_with_catalogued_snapshot": compactions, "planted_partial_snapshots": planted,
                                      "requests_per_variant": var_count, "model_impl_mismatches": mism,
+                                     "codec_comparisons": codec_counts,
                                      "restart_differences_by_component_and_key": diff_count,
                                      "out_of_scope_table_differences_not_judged": out_of_scope,
                                      "restarts_with_shorter_raft_log": log_lost}
